@@ -126,7 +126,10 @@ impl Du {
         }
     }
     pub fn sigmoid(self) -> Du {
-        let s = 1.0 / (1.0 + (-self.v).exp());
+        // the accurate value on both sides (for very negative x, 1/(1+exp(-x)) evaluates to 0 where the
+        // function is about 1e-309: an implementation that returns the subnormal value is not wrong,
+        // and neither is one that flushes it - see the underflow slack below)
+        let s = if self.v >= 0.0 { 1.0 / (1.0 + (-self.v).exp()) } else { let e = self.v.exp(); e / (1.0 + e) };
         let s1 = s * (1.0 - s);
         let s2 = s1 * (1.0 - 2.0 * s);
         let mut r = self.unary(s, s1, s2, false);
@@ -135,6 +138,10 @@ impl Du {
         // and its derivative s*(1-s) from the cached s: near saturation (1-s) cancels, so the
         // derivative carries an absolute error of the order eps*s rather than a relative one
         r.md += 2.0 * s.abs() * self.d.abs();
+        // results below the normal range may be flushed to zero (absolute slack of one smallest normal number)
+        let tiny = if crate::common::IS_F32 { f32::MIN_POSITIVE as f64 } else { f64::MIN_POSITIVE };
+        r.m += tiny / crate::common::tau();
+        r.md += self.d.abs() * tiny / crate::common::tau();
         r
     }
 }
